@@ -334,15 +334,17 @@ Proof.
   assert (Es : forall T, enc_members ((k, x) :: r) ++ T
             = 34 :: json_body k ++ 34 :: key_sep ++ json_encode x
               ++ (match r with [] => [] | _ => item_sep ++ enc_members r end) ++ T).
-  { intros T. cbn [enc_members]. unfold json_string. cbn [app]. rewrite <- !app_assoc. cbn [app].
-    rewrite <- !app_assoc. reflexivity. }
+  { intros T. cbn [enc_members]. unfold json_string. cbn [app].
+    repeat (rewrite <- app_assoc; cbn [app]). reflexivity. }
   rewrite Es in *. change (34 =? 34) with true. cbn match.
   rewrite (jstring_body k Hk). rewrite starts_app.
-  repeat (rewrite app_length in Hf || progress cbn [length key_sep item_sep] in Hf).
   destruct r as [|y r'].
-  - cbn [app] in *. rewrite (Hx f (125 :: rest) (tail_ok_125 _)) by (rewrite app_length; cbn [length]; lia).
+  - cbn [app] in *.
+    repeat first [rewrite app_length in Hf | progress (cbn [length key_sep item_sep] in Hf)].
+    rewrite (Hx f (125 :: rest) (tail_ok_125 _)) by (rewrite app_length; cbn [length]; lia).
     reflexivity.
-  - rewrite <- app_assoc.
+  - repeat first [rewrite app_length in Hf | progress (cbn [length key_sep item_sep] in Hf)].
+    rewrite <- app_assoc.
     set (R := enc_members (y :: r') ++ 125 :: rest) in *.
     assert (HR : (2 * length R + 1 <= f)%nat).
     { unfold R. rewrite app_length. cbn [length]. lia. }
@@ -351,4 +353,182 @@ Proof.
     change (item_sep ++ R) with (44 :: 32 :: R) at 1. change (44 =? 125) with false. cbn match.
     rewrite starts_app. unfold R.
     rewrite (IH ltac:(discriminate) Hr f rest HR). reflexivity.
+Qed.
+
+Lemma Z_dec_hd z : exists c t, Z_dec z = c :: t /\ (c = 45 \/ is_digit c = true).
+Proof.
+  destruct z as [|p|p]; cbn [Z_dec].
+  - eexists _, _; split; [reflexivity|right; reflexivity].
+  - destruct (N_dec_spec (N.pos p)) as (_ & E2 & E3).
+    destruct (all_digits_hd _ E2 E3) as (d & t & -> & Hd & _).
+    eexists _, _; split; [reflexivity|right; exact Hd].
+  - eexists _, _; split; [reflexivity|left; reflexivity].
+Qed.
+
+Lemma json_encode_hd v : exists c t, json_encode v = c :: t /\ c <> 93 /\ c <> 125.
+Proof.
+  destruct v as [| [|] |z|s|l|l]; try (eexists _, _; split; [reflexivity|split; discriminate]).
+  destruct (Z_dec_hd z) as (c & t & E & Hc). exists c, t. cbn [json_encode]. split; [exact E|].
+  destruct Hc as [Hc|Hd]; [subst c; split; discriminate|].
+  unfold is_digit in Hd. apply andb_true_iff in Hd as [H1 H2]. apply N.leb_le in H1, H2. split; lia.
+Qed.
+
+Lemma decodes_all v : jv_ok v -> decodes v.
+Proof.
+  induction v as [|b|z|s|l IH|kvs IH] using jv_nested_ind; intros Hok f rest Ht Hf.
+  - destruct f as [|f]; [cbn in Hf; lia|]. cbn [json_encode]. unfold s_null at 1. cbn [app jvalue].
+    change (110 =? 34) with false. change (110 =? 91) with false. change (110 =? 123) with false.
+    cbn match. change (110 :: 117 :: 108 :: 108 :: rest) with (s_null ++ rest).
+    rewrite starts_app. reflexivity.
+  - destruct f as [|f]; [destruct b; cbn in Hf; lia|]. destruct b; cbn [json_encode].
+    + unfold s_true at 1. cbn [app jvalue].
+      change (116 =? 34) with false. change (116 =? 91) with false. change (116 =? 123) with false.
+      cbn match. change (116 :: 114 :: 117 :: 101 :: rest) with (s_true ++ rest).
+      rewrite starts_app. reflexivity.
+    + unfold s_false at 1. cbn [app jvalue].
+      change (102 =? 34) with false. change (102 =? 91) with false. change (102 =? 123) with false.
+      cbn match. change (102 :: 97 :: 108 :: 115 :: 101 :: rest) with (s_false ++ rest).
+      rewrite starts_app. reflexivity.
+  - cbn [json_encode] in *. destruct (Z_dec_hd z) as (c & t & E & Hc).
+    assert (Hne : (c =? 34) = false /\ (c =? 91) = false /\ (c =? 123) = false
+                  /\ (110 =? c) = false /\ (116 =? c) = false /\ (102 =? c) = false).
+    { destruct Hc as [->|Hd]; [repeat split|].
+      unfold is_digit in Hd. apply andb_true_iff in Hd as [H1 H2]. apply N.leb_le in H1, H2.
+      repeat split; apply N.eqb_neq; lia. }
+    destruct Hne as (N1 & N2 & N3 & N4 & N5 & N6).
+    destruct f as [|f]; [rewrite E in Hf; cbn in Hf; lia|].
+    pose proof (jnumber_Z_dec z rest Ht) as Hn. rewrite E in *. cbn [app jvalue].
+    rewrite N1, N2, N3. unfold starts, s_null, s_true, s_false. rewrite N4, N5, N6. exact Hn.
+  - inversion Hok as [| | |s' Hs| |]; subst.
+    destruct f as [|f]; [cbn in Hf; lia|]. cbn [json_encode]. unfold json_string. cbn [app jvalue].
+    change (34 =? 34) with true. cbn match. rewrite <- app_assoc. cbn [app].
+    rewrite (jstring_body s Hs). reflexivity.
+  - inversion Hok as [| | | |l' Hl|]; subst.
+    assert (Hall : Forall decodes l).
+    { rewrite Forall_forall in *. intros x Hx. apply IH; [assumption|apply Hl; assumption]. }
+    rewrite json_encode_list in *. destruct f as [|f]; [cbn in Hf; lia|].
+    cbn [app jvalue]. change (91 =? 34) with false. change (91 =? 91) with true. cbn match.
+    destruct l as [|x r].
+    + cbn [enc_items app]. change (93 =? 93) with true. reflexivity.
+    + destruct (json_encode_hd x) as (c & t & E & Nc & _).
+      assert (Eh : exists t', (enc_items (x :: r) ++ [93]) ++ rest = c :: t').
+      { cbn [enc_items]. rewrite E. eexists. reflexivity. }
+      destruct Eh as (t' & Eh). rewrite Eh. apply N.eqb_neq in Nc. rewrite Nc. rewrite <- Eh.
+      rewrite <- app_assoc. cbn [app].
+      rewrite (jelems_enc (x :: r) ltac:(discriminate) Hall f rest); [reflexivity|].
+      repeat first [rewrite app_length in Hf | progress (cbn [length app] in Hf)].
+      repeat first [rewrite app_length | progress (cbn [length app])]. lia.
+  - inversion Hok as [| | | | |kvs' Hl]; subst.
+    assert (Hall : Forall (fun kv => str_ok (fst kv) /\ decodes (snd kv)) kvs).
+    { rewrite Forall_forall in *. intros kv Hkv. destruct (Hl kv Hkv) as [H1 H2].
+      split; [assumption|apply IH; assumption]. }
+    rewrite json_encode_dict in *. destruct f as [|f]; [cbn in Hf; lia|].
+    cbn [app jvalue]. change (123 =? 34) with false. change (123 =? 91) with false.
+    change (123 =? 123) with true. cbn match.
+    destruct kvs as [|[k x] r].
+    + cbn [enc_members app]. change (125 =? 125) with true. reflexivity.
+    + assert (Eh : exists t', (enc_members ((k, x) :: r) ++ [125]) ++ rest = 34 :: t').
+      { cbn [enc_members]. unfold json_string. cbn [app]. eexists. reflexivity. }
+      destruct Eh as (t' & Eh). rewrite Eh. change (34 =? 125) with false. cbn match. rewrite <- Eh.
+      rewrite <- app_assoc. cbn [app].
+      rewrite (jmembers_enc ((k, x) :: r) ltac:(discriminate) Hall f rest); [reflexivity|].
+      repeat first [rewrite app_length in Hf | progress (cbn [length app] in Hf)].
+      repeat first [rewrite app_length | progress (cbn [length app])]. lia.
+Qed.
+
+(** The json filter's output decodes to its input. *)
+Theorem json_roundtrip v : jv_ok v -> json_decode (json_filter v) = Some v.
+Proof.
+  intros H. unfold json_decode, json_filter.
+  pose proof (decodes_all v H (S (2 * length (json_encode v))) [] I) as D.
+  rewrite app_nil_r in D. rewrite D by lia. reflexivity.
+Qed.
+
+(** Non-vacuity: a nested value with quotes, controls, non-ASCII and astral
+    characters, a big integer, empty containers. *)
+Example json_example :
+  let v := JDict [([97; 34], JList [JInt (-(10 ^ 40))%Z; JNull; JBool true; JStr [233; 128512; 127; 9; 1; 92]]);
+                  ([], JDict []); ([36; 123], JList [])] in
+  jv_ok v /\ json_decode (json_filter v) = Some v.
+Proof.
+  split; [|vm_compute; reflexivity].
+  repeat (first [ apply ok_dict | apply ok_list | apply ok_str | apply ok_int | apply ok_null | apply ok_bool
+                | apply Forall_cons | apply Forall_nil | split ]; cbn [fst snd]).
+  all: unfold scalar; try lia.
+Qed.
+
+(** * Every string of scalar values >= 8 has a spelling: its JSON text is one *)
+From LQ Require Import Kernels.Unescape Kernels.StrScan Proofs.StrScan_proofs.
+
+Lemma hexval_hexdigit x : x < 16 -> hexval (hexdigit x) = Some x.
+Proof.
+  intros H. unfold hexdigit, hexval.
+  destruct (N.ltb_spec x 10).
+  - replace ((48 <=? 48 + x) && (48 + x <=? 57)) with true
+      by (symmetry; apply andb_true_iff; split; apply N.leb_le; lia).
+    f_equal. lia.
+  - replace ((48 <=? 87 + x) && (87 + x <=? 57)) with false
+      by (symmetry; apply andb_false_iff; right; apply N.leb_gt; lia).
+    replace ((65 <=? 87 + x) && (87 + x <=? 70)) with false
+      by (symmetry; apply andb_false_iff; right; apply N.leb_gt; lia).
+    replace ((97 <=? 87 + x) && (87 + x <=? 102)) with true
+      by (symmetry; apply andb_true_iff; split; apply N.leb_le; lia).
+    f_equal. lia.
+Qed.
+
+Lemma hex4_hex4_of n : n < 65536 ->
+  match hex4_of n with
+  | [a; b; c; d] => hex4 a b c d = Some n
+  | _ => False
+  end.
+Proof.
+  intros H. unfold hex4_of, hex4.
+  rewrite !hexval_hexdigit by lia. f_equal. lia.
+Qed.
+
+Lemma json_escape_char_piece c : scalar c -> 8 <= c -> LPiece DQ c (json_escape_char c).
+Proof.
+  intros [Hc Hs] H8. unfold json_escape_char.
+  destruct (N.eqb_spec c 34) as [->|N1]; [apply (LP_esc DQ 34); reflexivity|].
+  destruct (N.eqb_spec c 92) as [->|N2]; [apply (LP_esc DQ 92); reflexivity|].
+  destruct (N.eqb_spec c 10) as [->|N3]; [apply (LP_esc DQ 110); reflexivity|].
+  destruct (N.eqb_spec c 13) as [->|N4]; [apply (LP_esc DQ 114); reflexivity|].
+  destruct (N.eqb_spec c 9) as [->|N5]; [apply (LP_esc DQ 116); reflexivity|].
+  destruct (N.eqb_spec c 12) as [->|N6]; [apply (LP_esc DQ 102); reflexivity|].
+  destruct (N.eqb_spec c 8) as [->|N7]; [apply (LP_esc DQ 98); reflexivity|].
+  destruct ((32 <=? c) && (c <=? 126)) eqn:Ep.
+  { apply LP_self; assumption. }
+  destruct (N.ltb_spec c 0x10000) as [Hb|Hb].
+  { pose proof (hex4_hex4_of c Hb) as H4. unfold u_escape.
+    destruct (hex4_of c) as [|a [|b [|c1 [|d [|? ?]]]]]; try contradiction.
+    apply LP_hex; [exact H4| |exact H8].
+    unfold is_surrogate. destruct (N.leb_spec 0xD800 c), (N.leb_spec c 0xDFFF); cbn [andb]; try reflexivity. lia. }
+  destruct (surrogates_of c ltac:(lia)) as [Ehi Elo].
+  set (n := c - 0x10000) in *.
+  set (hi := N.lor 0xD800 (N.land (N.shiftr n 10) 0x3FF)) in *.
+  set (lo := N.lor 0xDC00 (N.land n 0x3FF)) in *.
+  assert (Hn : n < 0x100000) by (subst n; lia).
+  assert (Hhi : hi < 65536 /\ 0xD800 <= hi <= 0xDBFF) by (rewrite Ehi; lia).
+  assert (Hlo : lo < 65536 /\ 0xDC00 <= lo <= 0xDFFF) by (rewrite Elo; lia).
+  pose proof (hex4_hex4_of hi (proj1 Hhi)) as H4h.
+  pose proof (hex4_hex4_of lo (proj1 Hlo)) as H4l.
+  unfold u_escape.
+  destruct (hex4_of hi) as [|a [|b [|c1 [|d [|? ?]]]]]; try contradiction.
+  destruct (hex4_of lo) as [|e [|f [|g [|h [|? ?]]]]]; try contradiction.
+  replace c with (pair_value hi lo) at 1.
+  - cbn [app]. apply LP_pair; try assumption.
+    + unfold is_high_surrogate. apply andb_true_iff; split; apply N.leb_le; lia.
+    + unfold is_low_surrogate. apply andb_true_iff; split; apply N.leb_le; lia.
+  - unfold pair_value. rewrite Ehi, Elo. subst n. lia.
+Qed.
+
+(** For ALL strings of Unicode scalar values >= U+0008 a valid spelling exists
+    (so the round-trip theorems are not vacuous for any such string), and the
+    JSON text of the string is one. *)
+Theorem enc_exists s : str_ok s -> Forall (fun c => 8 <= c) s -> Enc DQ s (json_body s).
+Proof.
+  intros Hs H8. induction Hs as [|c s Hc Hs IH]; [constructor|].
+  inversion H8; subst. unfold json_body. cbn [flat_map]. constructor.
+  - apply json_escape_char_piece; assumption.
+  - apply IH; assumption.
 Qed.
